@@ -476,10 +476,10 @@ func (l *Lab) Runnable(name string) bool {
 type Outcome struct {
 	Resp proto.Resp
 	Hang bool // watchdog fired (reported as inconclusive, never as a violation)
-	// Diverged > 0 (always together with Hang): when the watchdog fired the worker process had
-	// itself burnt this many seconds of CPU time on the request. Unlike elapsed time this does
-	// not depend on how busy the machine is; callers that know a step bound for the request
-	// (the reference interpreter's) may read it as "does not terminate".
+	// Diverged > 0 (always together with Hang): the worker process itself burnt this many
+	// seconds of CPU time on a small request (one parse of at most 300 bytes). Unlike elapsed
+	// time this does not depend on how busy the machine is; callers that know a step bound for
+	// the request (the reference interpreter's) may read it as "does not terminate".
 	Diverged float64
 	Died     string // the worker died while serving this request (stderr tail)
 	BadResp  string // the response could not be decoded: a harness problem, never a violation
@@ -635,6 +635,12 @@ func (l *Lab) Run(reqs []proto.Req, workers int, timeout time.Duration) []Outcom
 					}
 				}(w)
 				started, cpu0 := time.Now(), procCPU(w.cmd.Process.Pid)
+				// Divergence is only ever read off SMALL single-parse requests: on a few hundred
+				// runes every legitimate cost (quadratic copying of memoised tokens, the tree
+				// printers, deep recursion, garbage collection) is milliseconds, so that
+				// DivergeCPU is three to four orders of magnitude away from it. A right-recursive
+				// list of 5 000 items legitimately costs seconds of CPU time on a busy machine.
+				small := reqs[i].Kind == "run" && len(reqs[i].Input) <= 300
 				var got *rd
 			wait:
 				for {
@@ -644,16 +650,18 @@ func (l *Lab) Run(reqs []proto.Req, workers int, timeout time.Duration) []Outcom
 						break wait
 					case <-time.After(250 * time.Millisecond):
 						el := time.Since(started)
+						if small {
+							if cpu := procCPU(w.cmd.Process.Pid) - cpu0; cpu >= DivergeCPU {
+								outs[i].Diverged = cpu
+								break wait
+							}
+						}
 						if el < timeout {
 							continue
 						}
-						// slow machine or a parser that does not terminate? Ask how much CPU
-						// time the process itself has used, and give a starved one more time.
-						if cpu := procCPU(w.cmd.Process.Pid) - cpu0; cpu >= DivergeCPU {
-							outs[i].Diverged = cpu
-							break wait
-						}
-						if el > 6*timeout {
+						// the watchdog: a small request of a starved process gets more time to
+						// show whether it is the process or the machine; anything else is a hang
+						if !small || el > 6*timeout {
 							break wait
 						}
 					}
